@@ -8,6 +8,7 @@ use crate::drivers::c06::{self, LcShape, Pert, T};
 use crate::drivers::c07;
 use crate::drivers::c08;
 use crate::drivers::c09::{self, TrimReq};
+use crate::drivers::c10;
 use crate::drivers::c11::{self, Op};
 use crate::drivers::c14;
 use crate::drivers::c16;
@@ -670,6 +671,64 @@ fn catalogue_inner(prop: &str, t: Tier, seed: u64, out: &mut Vec<Entry>) {
             }
             let mut en = e("transparent/ipa-hyrax".into(), t, "nothing (input-free computations: executed and asserted, not solver-decided)", "IPA max_degree 1,3,6; Hyrax 2,4 variables".into(), move || c09::transparent(seed)); en.funcs = f.clone(); out.push(en);
             let mut en = e("prepared/doublings".into(), t, "the SRS (symbolic)", "first 12 and last 4 of 255 doublings".into(), move || c09::prepared(seed)); en.funcs = f.clone(); out.push(en);
+        }
+        "C10" => {
+            let f = vec!["MarlinKZG10::check", "Marlin::accumulate_commitments_and_values", "kzg10::KZG10::check", "SonicKZG10::{check,accumulate_elems,check_elems}", "MarlinPST13::check", "InnerProductArgPC::{check,succinct_check}", "SuccinctCheckPolynomial::{evaluate,compute_coeffs}", "HyraxPC::check", "LinearCodePCS::check", "get_indices_from_sponge", "calculate_t"];
+            let quick = t == Tier::Quick;
+            let symtxt = "polynomial (1-polynomial shapes), point, challenges, blinding, and the replaced component (a fresh symbolic element of its type)";
+            let mut add = |id: String, bounds: String, run: Box<dyn Fn() -> Verdict>| {
+                let mut en = e(id, t, symtxt, bounds, move || run());
+                en.funcs = f.clone();
+                if quick { en.lim.wall_s = 30.0; }
+                out.push(en);
+            };
+            let mkc = |sz: Size, polys: Vec<PolySpec>| { let mut c = Cfg::new(sz, polys); c.seed = seed; c.rng_nonzero = true; c };
+            // Marlin: plain, bounded, hiding+bounded
+            for (tag, ps, hid) in [("plain", PolySpec::new(2), 0usize), ("bound", PolySpec::new(2).bound(2), 0), ("hide-bound", PolySpec::new(2).bound(2).hide(1), 1)] {
+                if quick && tag != "hide-bound" { continue; }
+                for which in 0..=11usize {
+                    let c = mkc(Size::uni(4, 3, hid), vec![ps.clone()]);
+                    add(format!("marlin/{}-c{}", tag, which), format!("{:?} {:?}", c.sz, c.polys), Box::new(move || c10::marlin(&c, which)));
+                }
+            }
+            for (tag, ps, hid) in [("plain", PolySpec::new(2), 0usize), ("bound", PolySpec::new(2).bound(2), 0), ("hide", PolySpec::new(2).hide(1), 1)] {
+                if quick && tag == "plain" { continue; }
+                for which in 0..=10usize {
+                    if quick && tag == "hide" && which != 5 && which != 0 { continue; }
+                    let c = mkc(Size::uni(4, 3, hid), vec![ps.clone()]);
+                    add(format!("sonic/{}-c{}", tag, which), format!("{:?} {:?}", c.sz, c.polys), Box::new(move || c10::sonic(&c, which)));
+                }
+            }
+            for (tag, ps, hid) in [("plain", PolySpec::new(2), 0usize), ("hide", PolySpec::new(2).hide(1), 1)] {
+                if quick && tag == "plain" { continue; }
+                for which in 0..=11usize {
+                    let c = mkc(Size::mv(2, 2, hid), vec![ps.clone()]);
+                    add(format!("pst13/{}-c{}", tag, which), format!("{:?} {:?}", c.sz, c.polys), Box::new(move || c10::pst13(&c, which)));
+                }
+            }
+            for (tag, ps, hid) in [("plain", PolySpec::new(2), 0usize), ("bound", PolySpec::new(2).bound(2), 0), ("hide", PolySpec::new(2).hide(1), 1)] {
+                if quick && tag == "plain" { continue; }
+                for which in 0..=15usize {
+                    if quick && tag == "hide" && ![0usize, 9, 10].contains(&which) { continue; }
+                    let c = mkc(Size::uni(3, 3, hid), vec![ps.clone()]);
+                    add(format!("ipa/{}-c{}", tag, which), format!("{:?} {:?}", c.sz, c.polys), Box::new(move || c10::ipa(&c, which)));
+                }
+            }
+            for which in 0..=11usize {
+                let c = mkc(Size::mv(2, 1, 0), vec![PolySpec::new(1)]);
+                add(format!("hyrax/c{}", which), format!("{:?}", c.sz), Box::new(move || c10::hyrax(&c, which)));
+            }
+            for which in 0..=11usize {
+                let mut c = mkc(Size::uni(4, 3, 0), vec![PolySpec::new(4).conc()]);
+                c.sym_points = false;
+                c.sym_ch = false;
+                let c2 = c.clone();
+                add(format!("ligero-uni/c{}", which), format!("{:?} concrete polynomial/point, natural challenges", c.sz), Box::new(move || c10::ligero::<LigeroUni>(&c2, which, true)));
+                let mut c = mkc(Size::mv(2, 1, 0), vec![PolySpec::new(1).conc()]);
+                c.sym_points = false;
+                c.sym_ch = false;
+                add(format!("ligero-ml/c{}", which), format!("{:?} concrete polynomial/point, natural challenges", c.sz), Box::new(move || c10::ligero::<LigeroMl>(&c, which, false)));
+            }
         }
         "C11" => {
             c11_family::<Marlin>(t, seed, out);
